@@ -18,6 +18,7 @@ import (
 	"verif/engine/sched"
 	"verif/engine/vs"
 	"verif/harness/enc"
+	"verif/harness/refwire"
 	"verif/harness/tr"
 	"verif/harness/wl"
 	"verif/mc"
@@ -43,6 +44,13 @@ var extra = map[string]func(env *wl.Env){
 		var in []byte
 		env.Facts["stream"] = s
 		_ = s.MsgRecv(&in, enc.Bytes{}) // parked until the close
+	},
+	// a peer that sends an undecodable invoke-metadata packet: the server gives the connection
+	// up; everything must still be released
+	"badmeta": func(env *wl.Env) {
+		env.Srv.Inject(refwire.Append(nil, refwire.Frame{Data: []byte{0xff, 0x01}, ID: refwire.ID{Stream: 1, Message: 1}, Kind: 7, Done: true}))
+		in, out := enc.Payload('c', 0, 0, enc.MinPayload), []byte(nil)
+		_ = env.Conn.Invoke(context.Background(), "/uA", enc.Bytes{}, &in, &out)
 	},
 	"parked": func(env *wl.Env) { // an operation parked inside a stalled transport
 		s, err := env.Conn.NewStream(context.Background(), "/silent", enc.Bytes{})
@@ -108,7 +116,7 @@ func scenario(cfg wl.Config, wname, closeBy string) *mc.Scenario {
 			f["lateDone"], f["late1"], f["late2"] = lateDone, e1, e2
 		}
 		// closing again (teardown) must not close the transport a second time
-		env.Teardown()
+		env.TeardownExplored()
 		f["cliCloses"], f["srvCloses"] = env.Cli.Closes, env.Srv.Closes
 		f["libEnd"] = wl.BlockedSummary(wl.LibBlocked(sched.BlockedNow()))
 		f["nlibEnd"] = len(wl.LibBlocked(sched.BlockedNow()))
@@ -123,7 +131,8 @@ func scenario(cfg wl.Config, wname, closeBy string) *mc.Scenario {
 		env := wl.GetEnv(e)
 		f, _ := env.Facts["snap"].(map[string]any)
 		if f == nil {
-			return "HARNESS no snapshot"
+			// the body's own (second, idempotent) Close in the teardown did not come back
+			return "closing the connection a second time never returned; blocked=" + wl.BlockedSummary(e.Blocked)
 		}
 		if d, _ := f["closerDone"].(bool); !d {
 			return fmt.Sprintf("Close never returned; blocked=%v", f["blocked"])
@@ -312,7 +321,7 @@ func serveScenario(nconn int, kind string, stopBy string) *mc.Scenario {
 
 func plans(tier string) []mc.Plan {
 	var ps []mc.Plan
-	wnames := []string{"idle", "unary", "sstream", "bidi", "running", "parked"}
+	wnames := []string{"idle", "unary", "sstream", "bidi", "running", "parked", "badmeta"}
 	cfgs := []wl.Config{{Pipe: tr.Options{Cap: -1}}, {Soft: true, Pipe: tr.Options{Cap: -1}}}
 	if tier == "thorough" {
 		wnames = append(wnames, "cstream", "unary2")
